@@ -13,6 +13,8 @@ def evaluate(ck, data, rules, docg):
             conv += 1
             continue
         who = (sorted(o.get("left_fixable", [])) or ["none-left-reporting:first-editor:%s" % o["refix_first_editor"] if o.get("refix_first_editor") else "none-left-reporting@" + o["rel"]])[0]
+        if o["rel"].startswith("corpus_min/"):  # purpose-made inputs are identified as such: the same rule failing elsewhere is another finding
+            who += "@" + o["rel"]
         d = o.get("refix_first_diff", {})
         if o.get("refix_cycle"):
             ck.violation("oscillates:%s" % who, "%s: repeated --fix cycles with period %d; rules still reporting after the first run: %r" % (T.tag(o), o["refix_cycle"], o.get("left_fixable", [])[:5]), T.rep(o, oracle="refix", detail=d))
